@@ -1,5 +1,4 @@
-import IronCalc.Sheet.Metadata
-import IronCalc.Sheet.StructureProofs
+import IronCalc.Sheet.MetadataProofs
 /-
   C33 — Cell-attached metadata follows its cells.
   Property theorems only.  Model: Sheet/Metadata.lean (links, conditional-format sqref parts and rule formulas under
@@ -34,23 +33,31 @@ theorem cfRow_eq (ax : Axis) (o : Op) (hv : o.valid) (x : Int) : cfRow ax o x = 
 theorem cfCol_eq (ax : Axis) (o : Op) (hv : o.valid) (x : Int) : cfCol ax o x = sigCol ax o x := by
   cases ax <;> simp [cfCol, sigCol, cfCoord_eq_rhoCoord o hv, rhoCoord_eq_sigma o hv]
 
+theorem cfEdges_of_some (o : Op) (a b x y : Int) (h1 : cfCoord o a = some x) (h2 : cfCoord o b = some y) :
+    cfEdges o a b = some (x, y, a) := by
+  simp only [cfEdges, h1, h2]
+
 /-- **cf_range_follows.** When every corner of a sqref part survives the edit (and no column leaves the grid)
-    the corners of the new part are the σ-images of the old corners — the part follows its cells. -/
-theorem C33_cf_range_follows (ax : Axis) (o : Op) (hv : o.valid) (p : CfPart) (hp : p.single = false)
+    the corners of the new part are the σ-images of the old corners — the part follows its cells — and its
+    first corner is the image of the old first corner. -/
+theorem C33_cf_range_follows (ax : Axis) (o : Op) (hv : o.valid) (p : CfPart)
     (a b c d : Int)
     (h1 : sigRow ax o p.r1 = some a) (h2 : sigCol ax o p.c1 = some b)
     (h3 : sigRow ax o p.r2 = some c) (h4 : sigCol ax o p.c2 = some d)
     (hb : inGrid .col b = true) (hd : inGrid .col d = true) :
-    cfPartDisp ax o p = ⟨false, a, b, c, d⟩ := by
-  unfold cfPartDisp
-  simp only [hp, Bool.false_eq_true, if_false, cfRow_eq ax o hv, cfCol_eq ax o hv, h1, h2, h3, h4, hb, hd,
-    Bool.and_self, if_true]
-
-theorem C33_cf_single_follows (ax : Axis) (o : Op) (hv : o.valid) (p : CfPart) (hp : p.single = true)
-    (a b : Int) (h1 : sigRow ax o p.r1 = some a) (h2 : sigCol ax o p.c1 = some b) (hb : inGrid .col b = true) :
-    cfPartDisp ax o p = ⟨true, a, b, a, b⟩ := by
-  unfold cfPartDisp
-  simp only [hp, if_true, cfRow_eq ax o hv, cfCol_eq ax o hv, h1, h2, hb]
+    cfPartDisp ax o p = some (⟨p.single, a, b, c, d⟩, (p.r1, p.c1)) := by
+  rw [← cfRow_eq ax o hv] at h1 h3
+  rw [← cfCol_eq ax o hv] at h2 h4
+  unfold cfPartDisp cfRowEdges cfColEdges
+  cases ax with
+  | row =>
+    simp only [cfRow, cfCol, Option.some.injEq] at h1 h2 h3 h4
+    subst h2 h4
+    simp only [cfEdges_of_some o _ _ _ _ h1 h3, hb, hd, Bool.and_self, if_true]
+  | col =>
+    simp only [cfRow, cfCol, Option.some.injEq] at h1 h2 h3 h4
+    subst h1 h3
+    simp only [cfEdges_of_some o _ _ _ _ h2 h4, hb, hd, Bool.and_self, if_true]
 
 /-- the absolute range `$c1$r1:$c2$r2` on sheet `s` that covers the same cells as the part -/
 def partRange (s : Nat) (p : CfPart) : Range :=
@@ -66,8 +73,8 @@ theorem C33_cf_agrees_with_formula_rewrite (ax : Axis) (s : Nat) (o : Op) (hv : 
     (h3 : sigRow ax o p.r2 = some c) (h4 : sigCol ax o p.c2 = some d)
     (ga : inGrid .row a = true) (gb : inGrid .col b = true) (gc : inGrid .row c = true) (gd : inGrid .col d = true) :
     rhoRange ⟨ax, s, o⟩ h (partRange s p) = (some (a, b), some (c, d)) ∧
-    cfPartDisp ax o p = ⟨false, a, b, c, d⟩ := by
-  refine ⟨?_, C33_cf_range_follows ax o hv p hp a b c d h1 h2 h3 h4 gb gd⟩
+    cfPartDisp ax o p = some (⟨false, a, b, c, d⟩, (p.r1, p.c1)) := by
+  refine ⟨?_, by rw [← hp]; exact C33_cf_range_follows ax o hv p a b c d h1 h2 h3 h4 gb gd⟩
   have e : ∀ hh v, (End.resolve hh ⟨true, v⟩) = v := fun _ _ => rfl
   cases ax with
   | row =>
@@ -81,65 +88,94 @@ theorem C33_cf_agrees_with_formula_rewrite (ax : Axis) (s : Nat) (o : Op) (hv : 
     simp only [partRange] at hfr hfc
     simp [rhoRange, rhoPoint, hfr, hfc, partRange, e, rhoCoord_eq_sigma o hv, h2, h4, ga, gb, gc, gd]
 
-/-- the full statement "a conditional-format range follows its cells as a formula range does": every line of the
-    range after the edit is the image of a line of the range before it -/
-def C33_cf_full : Prop :=
-  ∀ (o : Op) (p : CfPart), o.valid → p.single = false → p.r1 ≤ p.r2 →
-    ∀ y, (cfPartDisp .row o p).r1 ≤ y → y ≤ (cfPartDisp .row o p).r2 →
-      ∃ x, p.r1 ≤ x ∧ x ≤ p.r2 ∧ sigma o x = some y
+/-- **C33, ranges under deletion** (repaired code, fix F33a).  For every deletion of rows and every part
+    (`r1 ≤ r2`, columns inside the grid): if some row of the part survives, the new part is exactly the image of
+    the surviving cells — every surviving row of the old part is inside it, every row of it is the image of a row
+    of the old part — with the same columns, and its first corner is the image of the first surviving cell; if no
+    row survives the part is dropped. -/
+theorem C33_cf_full (r k : Int) (hk : 0 < k) (p : CfPart) (hr : p.r1 ≤ p.r2)
+    (hc : inGrid .col p.c1 = true ∧ inGrid .col p.c2 = true) :
+    match cfPartDisp .row (.delete r k) p with
+    | some (q, src) =>
+        q.c1 = p.c1 ∧ q.c2 = p.c2 ∧ q.single = p.single ∧ q.r1 ≤ q.r2 ∧
+        src.2 = p.c1 ∧ p.r1 ≤ src.1 ∧ src.1 ≤ p.r2 ∧ sigma (.delete r k) src.1 = some q.r1 ∧
+        (∀ u u', p.r1 ≤ u → u ≤ p.r2 → sigma (.delete r k) u = some u' → q.r1 ≤ u' ∧ u' ≤ q.r2) ∧
+        (∀ v, q.r1 ≤ v → v ≤ q.r2 → ∃ u, p.r1 ≤ u ∧ u ≤ p.r2 ∧ sigma (.delete r k) u = some v)
+    | none => ∀ u, p.r1 ≤ u → u ≤ p.r2 → sigma (.delete r k) u = none := by
+  have h := cfEdges_delete r k p.r1 p.r2 hk hr
+  unfold cfPartDisp cfRowEdges cfColEdges
+  cases he : cfEdges (.delete r k) p.r1 p.r2 with
+  | none => rw [he] at h; simpa using h
+  | some t =>
+    obtain ⟨x, y, src⟩ := t
+    rw [he] at h
+    simp only at h
+    obtain ⟨h1, h2, h3, h4, h5, h6⟩ := h
+    simp only [hc.1, hc.2, Bool.and_self, if_true]
+    refine ⟨by trivial, by trivial, by trivial, h1, by trivial, h2, h3, h4, h5, ?_⟩
+    intro v hv1 hv2
+    exact ⟨_, h6 v hv1 hv2⟩
 
-/-- false on the pinned tree: a part with a deleted corner keeps its old string (formulas get `#REF!`), so the
-    conditional format on `A2:A3` stays on `A2:A3` after rows 2–3 are deleted — on cells that never had it
-    (finding F33a) -/
-theorem C33_cf_full_false : ¬ C33_cf_full := by
-  intro hfull
-  obtain ⟨x, h1, h2, h3⟩ := hfull (.delete 2 2) ⟨false, 2, 1, 3, 1⟩ (by decide) rfl (by decide) 2
-    (by decide) (by decide)
-  simp only [sigma, sigmaDelete] at h3
-  grind
+/-- the same along the other axis: deleting columns -/
+theorem C33_cf_full_cols (r k : Int) (hk : 0 < k) (p : CfPart) (hr : p.c1 ≤ p.c2)
+    (hg : ∀ x, p.c1 ≤ x → x ≤ p.c2 → inGrid .col x = true) (hr1 : 1 ≤ r) :
+    match cfPartDisp .col (.delete r k) p with
+    | some (q, src) =>
+        q.r1 = p.r1 ∧ q.r2 = p.r2 ∧ q.c1 ≤ q.c2 ∧
+        src.1 = p.r1 ∧ p.c1 ≤ src.2 ∧ src.2 ≤ p.c2 ∧ sigma (.delete r k) src.2 = some q.c1 ∧
+        (∀ u u', p.c1 ≤ u → u ≤ p.c2 → sigma (.delete r k) u = some u' → q.c1 ≤ u' ∧ u' ≤ q.c2) ∧
+        (∀ v, q.c1 ≤ v → v ≤ q.c2 → ∃ u, p.c1 ≤ u ∧ u ≤ p.c2 ∧ sigma (.delete r k) u = some v)
+    | none => ∀ u, p.c1 ≤ u → u ≤ p.c2 → sigma (.delete r k) u = none := by
+  have h := cfEdges_delete r k p.c1 p.c2 hk hr
+  unfold cfPartDisp cfRowEdges cfColEdges
+  cases he : cfEdges (.delete r k) p.c1 p.c2 with
+  | none => rw [he] at h; simpa using h
+  | some t =>
+    obtain ⟨x, y, src⟩ := t
+    rw [he] at h
+    simp only at h
+    obtain ⟨h1, h2, h3, h4, h5, h6⟩ := h
+    -- the images of surviving columns of the grid stay inside the grid
+    have gx : inGrid .col x = true := by
+      have := hg src h2 h3
+      simp only [inGrid_iff, Axis.last] at this ⊢
+      simp only [sigma, sigmaDelete] at h4
+      grind
+    have gy : inGrid .col y = true := by
+      obtain ⟨hy1, hy2, hy3⟩ := h6 y h1 (Int.le_refl _)
+      have := hg _ hy1 hy2
+      simp only [inGrid_iff, Axis.last] at this ⊢
+      simp only [sigma, sigmaDelete] at hy3
+      grind
+    simp only [gx, gy, Bool.and_self, if_true]
+    refine ⟨by trivial, by trivial, h1, by trivial, h2, h3, h4, h5, ?_⟩
+    intro v hv1 hv2
+    exact ⟨_, h6 v hv1 hv2⟩
 
-/-- the domain on which the code is right: no corner of the part is deleted -/
-def cornersSurvive (ax : Axis) (o : Op) (p : CfPart) : Bool :=
-  (cfRow ax o p.r1).isSome && (cfCol ax o p.c1).isSome && (cfRow ax o p.r2).isSome && (cfCol ax o p.c2).isSome
-
-/-- **C33 (partial), delete and insert.** If no corner is deleted, every line of the new range is the image of a
-    line of the old one and every surviving line of the old range is inside the new one. -/
-theorem C33_cf_partial (o : Op) (p : CfPart) (hp : p.single = false) (hr : p.r1 ≤ p.r2)
-    (hk : match o with | .insert _ k => 0 < k | .delete _ k => 0 < k | .move1 _ _ => False)
-    (hs : cornersSurvive .row o p = true) (hc : inGrid .col p.c1 = true ∧ inGrid .col p.c2 = true) :
-    (∀ x x', p.r1 ≤ x → x ≤ p.r2 → sigma o x = some x' →
-        (cfPartDisp .row o p).r1 ≤ x' ∧ x' ≤ (cfPartDisp .row o p).r2) ∧
-    (∀ y, (cfPartDisp .row o p).r1 ≤ y → y ≤ (cfPartDisp .row o p).r2 →
-        (∃ x, p.r1 ≤ x ∧ x ≤ p.r2 ∧ sigma o x = some y) ∨
-        (∃ r k, o = .insert r k ∧ r ≤ y ∧ y < r + k)) := by
-  have hv : o.valid := by cases o <;> simp_all [Op.valid]
-  simp only [cornersSurvive, Bool.and_eq_true, Option.isSome_iff_exists, cfRow_eq .row o hv, cfCol_eq .row o hv,
-    sigRow, sigCol] at hs
-  obtain ⟨⟨⟨⟨a, ha⟩, _⟩, ⟨c, hc'⟩⟩, _⟩ := hs
-  have hd := C33_cf_range_follows .row o hv p hp a p.c1 c p.c2 ha rfl hc' rfl hc.1 hc.2
-  rw [hd]
-  cases o with
-  | insert r k =>
-    simp only at hk
-    simp only [sigma, sigmaInsert] at ha hc' ⊢
-    constructor
-    · intro x x' h1 h2 h3; grind
-    · intro y h1 h2
-      by_cases hy : y < r
-      · exact Or.inl ⟨y, by grind, by grind, by grind⟩
-      · by_cases hy2 : y < r + k
-        · exact Or.inr ⟨r, k, rfl, by omega, hy2⟩
-        · exact Or.inl ⟨y - k, by grind, by grind, by grind⟩
-  | delete r k =>
-    simp only at hk
-    simp only [sigma, sigmaDelete] at ha hc' ⊢
-    constructor
-    · intro x x' h1 h2 h3; grind
-    · intro y h1 h2
-      by_cases hy : y < r
-      · exact Or.inl ⟨y, by grind, by grind, by grind⟩
-      · exact Or.inl ⟨y + k, by grind, by grind, by grind⟩
-  | move1 r d => exact absurd hk id
+/-- **C33, ranges under insertion**: the part grows over the inserted rows, nothing is ever dropped; every row of
+    the new part is the image of a row of the old one or one of the new blank rows -/
+theorem C33_cf_full_insert (r k : Int) (hk : 0 < k) (p : CfPart) (hr : p.r1 ≤ p.r2)
+    (hc : inGrid .col p.c1 = true ∧ inGrid .col p.c2 = true) :
+    ∃ q, cfPartDisp .row (.insert r k) p = some (q, (p.r1, p.c1)) ∧
+      q.c1 = p.c1 ∧ q.c2 = p.c2 ∧ q.r1 ≤ q.r2 ∧ sigma (.insert r k) p.r1 = some q.r1 ∧
+      (∀ u u', p.r1 ≤ u → u ≤ p.r2 → sigma (.insert r k) u = some u' → q.r1 ≤ u' ∧ u' ≤ q.r2) ∧
+      (∀ v, q.r1 ≤ v → v ≤ q.r2 → (r ≤ v ∧ v < r + k) ∨ ∃ u, p.r1 ≤ u ∧ u ≤ p.r2 ∧ sigma (.insert r k) u = some v) := by
+  have h := cfEdges_insert r k p.r1 p.r2 hk hr
+  unfold cfPartDisp cfRowEdges cfColEdges
+  cases he : cfEdges (.insert r k) p.r1 p.r2 with
+  | none => rw [he] at h; exact absurd h id
+  | some t =>
+    obtain ⟨x, y, src⟩ := t
+    rw [he] at h
+    simp only at h
+    obtain ⟨h1, h2, h3, h4, h5⟩ := h
+    subst h2
+    simp only [hc.1, hc.2, Bool.and_self, if_true]
+    refine ⟨_, rfl, by trivial, by trivial, h1, h3, h4, ?_⟩
+    intro v hv1 hv2
+    rcases h5 v hv1 hv2 with hb | hb
+    · exact Or.inl hb
+    · exact Or.inr ⟨_, hb⟩
 
 /-- **cut.** A part whose corners are all inside the cut area moves with the area (by the paste offset), any other
     part stays — the rule of `move_formula` for ranges. -/
@@ -240,9 +276,11 @@ theorem C33_undo_restores_link {L : Type} (a : Rect) (m : LinkMap L) :
 /-! non-vacuity -/
 
 -- `B3:C6`, insert two rows at 4: `B3:C8`; delete row 3 (a corner): the string is kept
-example : cfPartDisp .row (.insert 4 2) ⟨false, 3, 2, 6, 3⟩ = ⟨false, 3, 2, 8, 3⟩ := by decide
-example : cfPartDisp .row (.delete 3 1) ⟨false, 3, 2, 6, 3⟩ = ⟨false, 3, 2, 6, 3⟩ := by decide
-example : cornersSurvive .row (.delete 3 1) ⟨false, 3, 2, 6, 3⟩ = false := by decide
+example : cfPartDisp .row (.insert 4 2) ⟨false, 3, 2, 6, 3⟩ = some (⟨false, 3, 2, 8, 3⟩, (3, 2)) := by decide
+-- delete row 3 (a corner): the part shrinks to the surviving rows 4..6, now 3..5; delete all of it: dropped
+example : cfPartDisp .row (.delete 3 1) ⟨false, 3, 2, 6, 3⟩ = some (⟨false, 3, 2, 5, 3⟩, (4, 2)) := by decide
+example : cfPartDisp .row (.delete 2 2) ⟨false, 2, 1, 3, 1⟩ = none := by decide
+example : cfPartDisp .row (.delete 2 1) ⟨false, 2, 1, 5, 1⟩ = some (⟨false, 2, 1, 4, 1⟩, (3, 1)) := by decide
 -- the formula range breaks on the same edit
 example : (rhoRange ⟨.row, 0, .delete 3 1⟩ ⟨0, 9, 9⟩ (partRange 0 ⟨false, 3, 2, 6, 3⟩)).1 = none := by decide
 -- copy `B2:D5` restricted to the copied `C1:C3`, pasted at `F10`: `F11:F12`
